@@ -28,6 +28,9 @@ EDITS = [
     ('guards', 'constants evaluated with labels', "        env = ChainMap(constants, REGISTERS)\n        value = item.expr.eval(None, env, item.line)", "        env = ChainMap(constants, labels)\n        value = item.expr.eval(None, env, item.line)"),
     ('guards', 'alias test by truthiness', "            if value not in constants:\n                continue", "            if not constants.get(value):\n                continue"),
     ('guards', 'alias rebuild from args()', "        new_item = item.__class__(*d.values())\n        new_items.append(new_item)\n\n        log_conversion('resolve_register_aliases'", "        new_item = item.__class__(item.line, item.name, *item.args())\n        new_items.append(new_item)\n\n        log_conversion('resolve_register_aliases'"),
+    ('guards', 'eval globals at module level', "            result = eval(self.expr, {'__builtins__': None}, env)", "            result = eval(self.expr, EVAL_GLOBALS, env)"),
+    ('guards', 'expression text rewritten before eval', "            result = eval(self.expr, {'__builtins__': None}, env)", "            result = eval(self.expr.replace('$', str(position)), {'__builtins__': None}, env)"),
+    ('guards', 'integer test dropped', "        if type(result) != int:", "        if False:"),
     ('book', 'far tail forgets to advance', "                inst = UTypeInstruction(item.line, 'auipc', rd='x6', imm=Hi(imm))\n                position += inst.size()\n", "                inst = UTypeInstruction(item.line, 'auipc', rd='x6', imm=Hi(imm))\n"),
     ('book', 'compressed item advances by the old size', "            # add compressed inst to items and break the search loop\n            position += inst.size()", "            # add compressed inst to items and break the search loop\n            position += item.size()"),
     ('book', 'align advances by its pessimistic size', "        position += padding\n        blob = Blob(item.line, b'\\x00' * padding)", "        position += item.size()\n        blob = Blob(item.line, b'\\x00' * padding)"),
